@@ -51,6 +51,8 @@ CE = "E0:E0,E3:E5,E1:E2,E4:E0,E5:E3"
 def gen_pair(fam, mode, emb, types=None, maxlen=None, depth=None, slots=None, wide=False):
     """fam: Weighted | Covariance; mode: seq | tree | hist; wide: weights {0, 1, 4096}"""
     ov = {}
+    if mode == "tree" and not wide and slots is None:
+        slots = ("{1, 2, 3}", "{1, 2}")      # thorough: longer sequences, two chunks
     if wide:
         ov["Values"] = "GenValuesNarrow"
         ov["Weights"] = "GenWeightsWide"
@@ -125,6 +127,8 @@ def long_job(types, emb, max_n=("10000", "1000000")):
     return {"cmd": "direct", "family": "long", "args": {"types": types, "embeddings": emb, "max_n": max_n}}
 
 
+TR_LEN = {"module": "Trace_Len", "cfg": "Trace_Len.cfg", "family": "len", "args": {"n": ("500", "5000")}, "timeout": 1800}
+
 PROPS = {
     "C01": {
         "level_text": "Moments.tla model-checked (TLC, exact rationals): Welford's update equals the textbook mean/variance for every sequence within bounds and is order-free; every TLC-generated sequence replayed on Mean/Variance under six exact embeddings, envelope comparison; long streams (<= 10^6) against the specification's definitions evaluated in i128; Apalache inductive invariant for the order-2 update over unbounded integers (thorough)",
@@ -149,6 +153,7 @@ PROPS = {
         "replay": [gen_tree(ALLM, E05), gen_hist(ALLM, "E0,E3,E5")],
         "direct": [long_job(ALLM.replace(",M4", "").replace(",M5", "").replace(",M8", ""), "E0,E3,E5")],
         "apalache": [{"module": "Ind_Variance", "skip": (True, False)}],
+        "trace": [TR_LEN],
         "rule": "every sequence over {-1,0,2} up to the length bound, cut into every composition of up to K contiguous chunks "
                 "(empty chunks included), merged in every order and direction of adjacent merges (all binary merge trees); "
                 "plus arbitrary add/merge/clone/fresh histories; ten concrete types; six embeddings",
@@ -198,6 +203,7 @@ PROPS = {
         "title": "the empty estimator is an exact identity of merge; lengths add exactly",
         "mc": [MC_HM, MC_MM, MC_W, MC_C, MC_MERGE],
         "replay": [gen_pair("Covariance", "tree", "E10:E10,E5:E10,E0:E0", maxlen=("3", "4")), gen_pair("Weighted", "tree", "E10:W1,E0:W0", maxlen=("3", "4")), gen_h("hist", 2, depth=("3", "4")), gen_h("hist", 3), gen_mm("hist", depth=("3", "4")), gen_pair("Weighted", "hist", "E0:W0,E5:W2,E10:W1", depth=("3", "4")), gen_pair("Covariance", "hist", "E0:E0,E3:E5,E10:E10,E5:E10", depth=("3", "4")), gen_hist(ALLM, "E0,E3,E5,E10"), gen_tree(ALLM, "E0")],
+        "trace": [TR_LEN],
         "rule": "every add/merge/clone/fresh/checkpoint history to the depth bound over two slots; at every merge the "
                 "destination's and source's full accessor vectors are compared bit for bit before/after",
         "bounds": {"quick": "depth <= 4", "thorough": "depth <= 5"},
@@ -291,15 +297,15 @@ PROPS = {
         "technique": 'TLC model checking of Quantile.tla + step-wise replay + TLC trace validation of recorded long runs',
         "title": "Quantile follows the P-square algorithm exactly once five observations are in",
         "mc": [MC_Q],
-        "replay": [gen_q("big", "E0,E3,E5", maxlen=("7", "9")),
-                   {**gen_q("big", "E0", maxlen=("6", "8"), alphabet="GenAlphabetB", pset="GenPSetMore"), "skip": (True, False)},
-                   {**gen_q("big", "E0", maxlen=("6", "8"), alphabet="GenAlphabetC"), "skip": (True, False)}],
+        "replay": [gen_q("big", "E0,E3,E5", maxlen=("7", "8")),
+                   {**gen_q("big", "E0", maxlen=("6", "7"), alphabet="GenAlphabetB", pset="GenPSetMore"), "skip": (True, False)},
+                   {**gen_q("big", "E0", maxlen=("6", "7"), alphabet="GenAlphabetC"), "skip": (True, False)}],
         "trace": [TR_Q],
         "rule": "every stream over {0,1,2,3} (ties everywhere) of length 5..L for p in {0,1/4,1/2,3/4,1}: positions and desired "
                 "positions exactly, heights and quantile() within 64*n*2^-53*max|x| of the exact-rational P-square run, tie rule of "
                 "DESIGN.md 4.2; plus long sorted/reverse/zig-zag/trending/duplicate/random streams whose recorded marker positions "
                 "are validated by TLC against the position skeleton of the specification",
-        "bounds": {"quick": "L <= 7; traces of 1,000 observations x 13 shapes", "thorough": "L <= 9, alphabets {0,1,2,5} {0,3,4,9}, p also 1/8 7/8; traces of 20,000"},
+        "bounds": {"quick": "L <= 7; traces of 1,000 observations x 13 shapes", "thorough": "L <= 8; alphabets {0,1,2,5} {0,3,4,9} to L <= 7, p also 1/8 7/8; traces of 20,000"},
         "assumptions": ["exact P-square heights overflow TLC's 32-bit integers beyond about 9 observations: long streams are validated on the integer skeleton and the C15 invariants only",
                         "marker state is read from the public serde form (fields q, n, m)"],
     },
@@ -320,11 +326,11 @@ PROPS = {
         "technique": 'TLC invariants of Quantile.tla + replay + TLC trace validation',
         "title": "quantile estimates stay inside the data range and bookkeeping is exact",
         "mc": [MC_Q, MC_QS],
-        "replay": [gen_q("big", "E0,E3", maxlen=("7", "9")), gen_q("small", "E0,E11")],
+        "replay": [gen_q("big", "E0,E3", maxlen=("7", "8")), gen_q("small", "E0,E11")],
         "trace": [TR_Q],
         "rule": "len/is_empty/p()/NaN-only-when-empty/range/marker order after every observation of every enumerated stream and of "
                 "long recorded streams (validated by TLC as trace invariants); Quantile::new must panic for seven invalid p",
-        "bounds": {"quick": "L <= 7; traces of 1,000", "thorough": "L <= 9; traces of 20,000"},
+        "bounds": {"quick": "L <= 7; traces of 1,000", "thorough": "L <= 8; traces of 20,000"},
         "assumptions": ["marker state is read from the public serde form"],
     },
     "C06": {
